@@ -194,3 +194,30 @@ def analyse(prog, quals):
                 if p in tparams and p not in bound and p in tdefaults and p not in rebound:
                     dropped.append({"caller": q, "callee": t, "param": p, "node": call, "module": m})
     return crossed, dropped, sites
+
+
+def filled_default(fn, p):
+    """`def f(..., p=None)` with `if p is None: p = V` (or `p = V if p is None else p`) at the top level of the body: V is the effective default.
+    -> source text of V, or None"""
+    txt = lambda n: " ".join(ast.unparse(n).split())
+
+    def is_none_test(t, positive=True):
+        return isinstance(t, ast.Compare) and len(t.ops) == 1 and isinstance(t.left, ast.Name) and t.left.id == p \
+            and isinstance(t.comparators[0], ast.Constant) and t.comparators[0].value is None \
+            and isinstance(t.ops[0], ast.Is if positive else ast.IsNot)
+
+    for st in fn.body:
+        if isinstance(st, ast.If) and is_none_test(st.test) and len(st.body) == 1 and isinstance(st.body[0], ast.Assign) and not st.orelse \
+                and len(st.body[0].targets) == 1 and isinstance(st.body[0].targets[0], ast.Name) and st.body[0].targets[0].id == p:
+            return txt(st.body[0].value)
+        if isinstance(st, ast.Assign) and len(st.targets) == 1 and isinstance(st.targets[0], ast.Name) and st.targets[0].id == p \
+                and isinstance(st.value, ast.IfExp):
+            e = st.value
+            if is_none_test(e.test) and isinstance(e.orelse, ast.Name) and e.orelse.id == p:
+                return txt(e.body)
+            if is_none_test(e.test, positive=False) and isinstance(e.body, ast.Name) and e.body.id == p:
+                return txt(e.orelse)
+        # stop looking once the parameter has been used for something else
+        if any(isinstance(x, ast.Name) and x.id == p for x in ast.walk(st)) and not isinstance(st, (ast.If, ast.Expr)):
+            break
+    return None
